@@ -18,6 +18,8 @@ RULE = (
     "optional whitespace from {space, tab, LF, CR, FF}; random function-name case), expected colour computed by O-CSS in "
     "exact rational arithmetic; translucent forms composited over a generated opaque background (or white when absent). "
     "Metamorphic: re-spelling (case / whitespace) gives the identical tuple. Observed at parse_color_to_rgb and Color(...).rgb. "
+    "Thorough adds a coverage-guided stage: 16 atheris (libFuzzer) processes whose bytes drive the same structured generator "
+    "(hypothesis fuzz_one_input) with the library instrumented for coverage and the same oracle inside the target. "
     "Non-trivial: strings with a percentage, a hue outside [0,360), a non-integer component, alpha strictly inside (0,1) or "
     "non-canonical whitespace/case; distinct by string (+ background)."
 )
@@ -199,4 +201,13 @@ def subchecks(tier):
         Enum("keywords-148-x-case", judge=literal_judge, items=keyword_items, exhaustive=True),
         Hyp("int-tuples-and-lists", tuple_strategy, tuple_judge, examples=4000 if q else 100000),
         Hyp("functional-notations", func_strategy, func_judge, examples=60000 if q else 2000000),
-    ]
+    ] + ([] if q else [
+        # coverage-guided: libFuzzer's bytes drive the same structured generator (hypothesis.fuzz_one_input), oracle inside
+        Enum("atheris-structured-functional-notations", block=atheris_block(), judge=func_judge),
+    ])
+
+
+def atheris_block():
+    from vlib.fuzzstage import atheris_block_factory
+
+    return atheris_block_factory("c07_atheris.py", "C07_RESULT", 60000, max_len=256, label="atheris+hypothesis")
